@@ -284,7 +284,7 @@ fn jpfx(j: &Value, v: &mut Val) {
 }
 
 /// canonical value of whatever routecore built, read back through Serialize
-fn from_json(shape: Shape, ap: bool, j: &Value) -> Val {
+pub fn from_json(shape: Shape, ap: bool, j: &Value) -> Val {
     let mut v = Val::default();
     let b = if ap { v.pid = Some(j[0].as_u64().unwrap()); &j[1] } else { j };
     match shape {
